@@ -94,4 +94,7 @@ var vxMergeable = []string{
 	"(*" + vxPkg + "Response).DateHeader",
 	vxPkg + "heuristicFreshness",
 	vxPkg + "calculateCurrentAge",
+	"net/textproto.isASCIISpace",
+	vxPkg + "validQDTextByte",
+	"(" + vxPkg + "CCResponseDirectives).NoCache",
 }
